@@ -187,6 +187,17 @@ def analyze(ctx, want):
             for o in ops:
                 if o.get("static"):
                     users.setdefault(o["static_path"], set()).add(fn.name)
+    from .common import owners as _owners
+    for sp in list(users):
+        # a helper the rules do not know by name touches the static on behalf of its callers
+        eff = set()
+        for f_ in users[sp]:
+            fobj = [x for x in F.fns.values() if x.name == f_]
+            if fobj and S.is_unknown_helper(fobj[0]):
+                eff |= {o.name for o, _ in _owners(F, fobj[0])}
+            else:
+                eff.add(f_)
+        users[sp] = eff
     for sp, fs in sorted(users.items()):
         for f_ in sorted(fs):
             ok = re.search(r"scanner_builder::(ScannerBuilder|SimpleScannerBuilder)::build$", f_) is not None
@@ -275,7 +286,7 @@ def analyze(ctx, want):
        "search over %s" % sorted(set(st["source"])), ac.loc())
     # a known class: the id is exactly the position at which an equal class was found (no arithmetic on it)
     for r, ic, p in st["hit"]:
-        good = [c for c, o in ic if o is True and is_eq_of(c, r"item@bb\d+(\.1)?\)?\.ast$", r"ComparableAst\(ast\)|^character_class$")]
+        good = [c for c, o in ic if o is True and is_eq_of(c, r"item@bb\d+(\.1)?\)?\.ast$", r"^(?!.*item@).*\bast\b|^character_class$")]
         r0 = uncast(r)
         ok = False
         if good:
@@ -284,7 +295,7 @@ def analyze(ctx, want):
             ok = r0 == ("sym", "index@bb" + n_) or (enumerated and S.fstr(r0) in ("item@bb%s.0" % n_, "(item@bb%s).0" % n_))
         ob("C02.f", "known-class-id-is-its-position", ok, "known class gets id %s under %s" % (S.vstr(r)[:60], [(S.fstr(c)[:60], o) for c, o in ic]), ac.loc())
     for ic, p in st["miss"]:
-        ok = any(o is False and is_eq_of(c, r"item@bb\d+(\.1)?\)?\.ast$", r"ComparableAst\(ast\)|^character_class$") for c, o in ic)
+        ok = any(o is False and is_eq_of(c, r"item@bb\d+(\.1)?\)?\.ast$", r"^(?!.*item@).*\bast\b|^character_class$") for c, o in ic)
         ob("C02.f", "search-continues-only-past-different-classes", ok, "next element under %s" % [(S.fstr(c)[:60], o) for c, o in ic], ac.loc())
     if "C02.f" in want:
         ctx.floor("C02.f", "paths of add_character_class that find a known class", len(st["hit"]), 1)
@@ -408,10 +419,22 @@ def analyze(ctx, want):
                 ob("C06.a", "", True, "", "") if False else None
 
     # ============================================================== lock discipline (C14.d)
+    LOCK_RX = r"RwLock::<.*>::(write|read|try_write|try_read)$|Mutex::<.*>::lock"
+    lockers = [f for f in F.fns.values() if not is_derived(f) and list(f.calls(LOCK_RX))]
+    # every function that takes the lock does so on behalf of one of the two build functions, and each build function gets
+    # to a lock acquisition (in its own body or in a helper introduced later)
+    served = set()
+    for f in lockers:
+        for o, _ in _owners(F, f):
+            okb = re.search(r"scanner_builder::(ScannerBuilder|SimpleScannerBuilder)::build$", o.name) is not None
+            served.add(o.name)
+            ob("C14.d", "lock-taken-for:" + M.short_name(o.name), okb, "%s takes the cache lock (on behalf of %s)" % (M.short_name(f.name), o.name), f.loc())
     for pat in (r"scanner_builder::ScannerBuilder::build$", r"scanner_builder::SimpleScannerBuilder::build$"):
-        fn = F.fn(pat)
-        ctx.analysed_fn(fn)
-        locks = [M.call_name(t) for bb, t in fn.calls(r"RwLock::<.*>::(write|read|try_write|try_read)$|Mutex::<.*>::lock")]
+        bf = F.fn(pat)
+        ctx.analysed_fn(bf)
+        ob("C14.d", "build-takes-the-lock:" + M.short_name(bf.name), bf.name in served, "lock acquired by %s" % [M.short_name(f.name) for f in lockers], bf.loc())
+    for fn in lockers:
+        locks = [M.call_name(t) for bb, t in fn.calls(LOCK_RX)]
         ok = len(locks) == 1 and locks[0].endswith("::write")
         ob("C14.d", "exclusive-lock-once:" + M.short_name(fn.name), ok, "lock acquisitions: %s (lookup+insert need one exclusive guard)" % [M.short_name(l) for l in locks], fn.loc())
         guards = [l for l, d in enumerate(fn.locals) if "RwLockWriteGuard" in d["ty"] and not d["ty"].startswith("&") and "Result<" not in d["ty"]]
